@@ -190,6 +190,17 @@ def work_generated(ctx, seed):
                 bsel = impl.call(bse.get_basis, nm, version=ver, elements=sel, data_dir=gd.path)[1]
                 # get_references reads REFERENCES.json of the data dir; the library block always reads the shipped one
                 check_refs(ctx, nm, ver, sel, bsel, ref_db, gd.path, 'gen:%d:%s' % (seed, nm))
+                if len(zs) >= 2 and len(sel) < len(zs):
+                    # the same selection written with repetitions (number and symbol, twice): as many items as the basis has
+                    # elements or more, still a proper subset
+                    from basis_set_exchange import lut
+                    rep = (sel + [lut.element_sym_from_Z(int(z)) for z in sel] + sel)[:max(len(zs) + 1, len(sel) + 1)]
+                    r1 = impl.call(bse.get_references, nm, elements=sel, version=ver, fmt='bib', data_dir=gd.path)
+                    r2 = impl.call(bse.get_references, nm, elements=rep, version=ver, fmt='bib', data_dir=gd.path)
+                    ctx.case(('gen', seed, nm, ver, 'repeated-selection'), True, 'references:repeated-selection')
+                    if r1 != r2:
+                        ctx.violation('api.get_references', 'repeated-selection', 'get_references(elements=%r) differs from get_references(elements=%r)' % (rep, sel),
+                                      {'kind': 'generated', 'seed': seed, 'name': nm, 'version': ver})
     finally:
         gd.cleanup()
 
